@@ -536,13 +536,22 @@ func (m *roundsMonitor) After(c *Chain, w *World, br *BlockResult, outs []TxOutc
 		}
 		if !paidQ[q] {
 			paidQ[q] = true
+			// tips that arrived after the next round of the query was already open (a deposit round rolled over by a
+			// report in this very block) stay with that round: what the query's remaining rounds carry is still owed
+			remaining := new(big.Int)
+			for _, r := range cur.Rounds[q] {
+				remaining.Add(remaining, r.Amount)
+			}
 			if m.owed[q] != nil {
-				expectedPaid.Add(expectedPaid, m.owed[q])
+				expectedPaid.Add(expectedPaid, new(big.Int).Sub(m.owed[q], remaining))
 				if m.owed[q].Sign() > 0 {
 					m.tipKept++
 				}
 			}
 			delete(m.owed, q)
+			if remaining.Sign() > 0 {
+				m.owed[q] = remaining
+			}
 		}
 	}
 	paid := new(big.Int).Add(prev.OracleBal, tipNet)
@@ -797,6 +806,10 @@ func genLongDeposit(rt *rapid.T) History {
 	b := Block{Gap: GapSpec{Kind: 2}, Idle: 1999 - n1 + delta, Ops: subs("edge", 1, 3)}
 	if uni(rt, "edgeTip", 8) == 0 {
 		b.Ops = append([]Op{{K: OpTip, A: uni(rt, "tipper2", nActors), R: [3]int{dep, 8, 0}, Amt: Amount{Kind: AmtAbs, N: 1_000_000}}}, b.Ops...)
+	}
+	if uni(rt, "edgeTipAfter", 4) == 0 {
+		// a tip that arrives in the edge block after the reports: it belongs to the round that is open then
+		b.Ops = append(b.Ops, Op{K: OpTip, A: uni(rt, "tipper3", nActors), R: [3]int{dep, 8, 0}, Amt: Amount{Kind: AmtAbs, N: 1_000_000}})
 	}
 	h.Blocks = append(h.Blocks, b)
 	for i := 0; i < 1+uni(rt, "after", 3); i++ {
